@@ -82,6 +82,9 @@ func runScenario(sc scenario, watchdog time.Duration) (evs []event, mismatch str
 		src := &source{}
 		for _, k := range sc.Writes {
 			pause(rnd)
+			if rnd.Intn(3) == 0 {
+				_ = p.Err() // unordered query: exercised for the race detector only
+			}
 			a := &apiRec{g: "writer", op: "write", asked: k, data: src.take(k)}
 			a.panicked = vh.Guard(func() { a.n, a.err = p.Write(a.data) })
 			rec.addAPI(a)
